@@ -64,6 +64,16 @@ def plan(ctx):
     if ctx.quick():
         add(a)
         add(random_shape(ctx, "Q", 3, 3, "quick"))
+        # one seeded configuration of the kinds thorough enumerates fully
+        pick = ctx.rand("quick-extra").randrange(3)
+        if pick == 0:
+            p = L.make_shape("P", [2, 3], kinds=["DI", "IDI"])
+            add(p, modes=(ctx.rand("quick-extra-mode").choice(MODES),),
+                prefix=[{"via": "hook", "at": rev_after_recording(p, 1, 0), "global": "none"}], tag="partial-start")
+        elif pick == 1:
+            add(L.make_shape("Dn", [2, 2, 2], directives={1: "none"}), modes=("file",), tag="directive")
+        else:
+            add(L.make_shape("DfL", [2, 2, 2], directives={2: "file"}), modes=("none",), tag="directive")
         return cfgs
     add(a, strace=True)
     add(L.make_shape("C", [2, 3, 1], kinds=["DI", "IDI", "I"]))
